@@ -197,3 +197,21 @@ def ambient(torch, kind):
     finally:
         torch.use_deterministic_algorithms(was_det)
         torch.set_default_dtype(was_dt)
+
+def inplace_big_step_cases(torch, rng, n_cases):
+    """VectorQuantize with the in-place codebook optimiser and a LARGE step (SGD lr 20 / Adam lr 0.3): the codebook moves during the call and the
+    module quantizes again - index, vector and loss of the call all refer to ONE codebook (the one after the step).  -> list of (kw, x, out, idx, loss,
+    breakdown_commit, codebook_after)"""
+    from functools import partial
+    from torch.optim import SGD, Adam
+    from vector_quantize_pytorch import VectorQuantize
+    res = []
+    for ci in range(n_cases):
+        opt = [partial(SGD, lr=20.0), partial(Adam, lr=0.3), partial(SGD, lr=5.0)][ci % 3]
+        kw = dict(dim=3, codebook_size=6, learnable_codebook=True, ema_update=False, in_place_codebook_optimizer=opt, commitment_weight=[1.0, 0.5][ci % 2], rotation_trick=(ci % 2 == 0))
+        vq = VectorQuantize(**kw)
+        vq.train()
+        x = torch.randn(4, 8, 3)
+        out, idx, loss, bd = vq(x, return_loss_breakdown=True)
+        res.append((kw, x, out.detach(), idx.detach(), loss.detach(), bd.commitment.detach(), vq._codebook.embed.detach()[0].clone()))
+    return res
